@@ -141,7 +141,17 @@ def run(ctx):
             continue
         fpc = [o for o in p.ops if o.kind == 'call' and txt(o.val.func).endswith('.from_parts')]
         if not fpc:
-            # absolute reference branch: returns the reference (or a copy)
+            # absolute reference branch: returns the reference (or a copy).  Any other way out that does not build the result
+            # with from_parts + normalize() hands back an un-normalised URL (the docstring: "normalized before being returned")
+            ts0 = tests_on(w, p)
+            absolute = any(t.endswith('.scheme') and not t.startswith('self.') and truth for t, truth, x in ts0) and \
+                any(t.endswith('.host') and not t.startswith('self.') and truth for t, truth, x in ts0)
+            if not absolute:
+                rv = txt(p.outcome[1]) if p.outcome[1] is not None else ''
+                normed = any(o.kind == 'call' and isinstance(o.val.func, ast.Attribute) and o.val.func.attr == 'normalize' and
+                             txt(o.val.func.value) == rv for o in p.ops)
+                ctx.ob('T9.norm', nav.fq, 'a result that is not the absolute reference itself is normalised before it is returned', normed,
+                       loc=nav.loc, path=p.describe() if not normed else None)
             continue
         n_rel += 1
         norm = [o for o in p.ops if o.kind == 'call' and isinstance(o.val.func, ast.Attribute) and o.val.func.attr == 'normalize'
